@@ -89,23 +89,43 @@ class Prop(Check):
 
     def make(self, rng, kind):
         mode = "plain" if kind == "notunique" else None
-        case = L.gen_project(rng, mode=mode)
+        # how the files get to know each other (see c28_lang.gen_project): import statements, a global
+        # repository of registered files, builtin models — the last two also with a STRING as main model,
+        # the only way a model without file name takes part in a multi-file project
+        link = rng.weighted([("import", 6), ("global", 3), ("builtin", 2)])
+        if link == "import":
+            case = L.gen_project(rng, mode=mode)
+        else:
+            case = L.gen_project(rng, mode=mode, link=link, as_str=rng.chance(0.6))
         case["kind"] = kind
         case["tools"] = rng.chance(0.2)
-        refs = L.all_refs(case)
+        if not case["str"] and rng.chance(0.15) and not any(0 in f["imports"] for f in case["files"]):
+            # (no import cycle through the main file: textX would read the main file from disk for it)
+            case["vname"] = True  # main text given as a string + file_name (file not on disk), imports still work
+        # files whose text is read by the observed load (builtin models are finished before)
+        live = L.file_order(case)
+        refs = [(fi, r) for fi, r in L.all_refs(case) if fi in live]
+        if kind == "notunique" and link != "import" and rng.chance(0.6):
+            # prefer a reference whose target lives in another file than the reference
+            holders = {}
+            for fi, f in enumerate(case["files"]):
+                for nm in L.item_names(f["elems"]):
+                    holders[nm] = fi
+            far = [(fi, r) for fi, r in refs if holders.get(r["target"]) != fi]
+            refs = far or refs
         if kind == "none":
             return case
         if kind == "garbage":
             # malformed stream: the main text is garbage from its first character on / somewhere inside
             R = L.render(case)
-            fi = rng.below(len(case["files"]))
+            fi = rng.choice(live)
             case["inject"] = {"kind": "syntax", "file": fi, "tok": rng.choice([0, len(R.tokens[fi])]), "how": "insert",
                               "garbage": rng.choice(L.GARBAGE) * rng.randint(1, 3)}
             case["kind"] = "syntax"
             return case
         if kind == "syntax":
             R = L.render(case)
-            fi = rng.below(len(case["files"]))
+            fi = rng.choice(live)
             toks = R.tokens[fi]
             how = rng.weighted([("insert", 7), ("replace", 2), ("delete", 1)])
             if how == "insert":
@@ -262,7 +282,7 @@ class Prop(Check):
             return None  # no error raised: nothing to locate (the correspondence reports a missing error)
         R = L.render(case)
         kind = obs["kind"]
-        want_file = lambda fi: None if case["str"] else L.fname(fi)  # noqa: E731
+        want_file = lambda fi: None if case["str"] and fi == 0 else L.fname(fi)  # noqa: E731
         if not obs.get("dir_ok", True):
             return f"error names a file outside the project directory ({obs['file']})"
         cands = []  # (file index, offset) of offending texts for this kind of error
@@ -317,7 +337,23 @@ class Prop(Check):
                 imported += 1
         return {"distribution": {"outcome": dist, "errors_in_imported_files": imported,
                                  "multi_file": sum(1 for c in cases if len(c["files"]) > 1),
-                                 "strings": sum(1 for c in cases if c["str"])}}
+                                 "strings": sum(1 for c in cases if c["str"]),
+                                 "link": {k: sum(1 for c in cases if c.get("link", "import") == k)
+                                          for k in ("import", "global", "builtin")},
+                                 "string_with_file_name": sum(1 for c in cases if c.get("vname")),
+                                 "string_main_with_files": sum(1 for c in cases if c["str"] and len(c["files"]) > 1),
+                                 "string_main_error_about_file": self._cross(cases, obs)}}
+
+    @staticmethod
+    def _cross(cases, obs):
+        """errors located in a string main model whose reference targets an item defined in a file"""
+        n = 0
+        for c, o in zip(cases, obs):
+            if not isinstance(o, dict) or o.get("outcome") != "err" or not c["str"] or len(c["files"]) < 2:
+                continue
+            if o.get("file") is None and o.get("kind") in ("notunique", "unresolvable"):
+                n += 1
+        return n
 
     # --------------------------------------------------------------- shrink
     def shrink(self, case):
